@@ -90,7 +90,7 @@ impl Prop for Structured {
         }
     }
     fn runs(&self, tier: &str) -> u64 {
-        if tier == "quick" { 25_000 } else { 2_000_000 }
+        if tier == "quick" { 150_000 } else { 4_000_000 }
     }
     fn generate(&self, rng: &mut Rng, avoid: &[String]) -> Value {
         let opts = GenOpts {
